@@ -110,7 +110,7 @@ package responsemanager
 //@ func ResponseManager.processRequests
 //@   lenient
 //@   requires invRS(rm)
-//@   modifies rm.inProgressResponses[*], inProgressResponseStatus.state, inProgressResponseStatus.updates, prot, alloc, nPush, nRemove
+//@   modifies rm.inProgressResponses[*], inProgressResponseStatus.state, inProgressResponseStatus.updates, prot, alloc, nPush, nRemove, nScope
 //@   ensures invRS(rm)
 //@   callsite ResponseManager.abortRequest: assert mine(rm, p, $requestID)
 //@   callsite ResponseManager.processUpdate: assert mine(rm, p, $requestID)
